@@ -314,14 +314,14 @@ enum { C_PUT, C_PUT_REPLACE, C_PUT_REPLACE_HELD, C_GET_HIT, C_GET_MISS, C_GET_WI
        C_UNREF_ZOMBIE, C_FOREACH, C_FOREACH_VISITS, C_TYPE, C_CHSW, C_NETADD, C_NETDROP, C_EVICT, C_PRESSURE_OPS,
        C_AUDITS, C_AUDIT_PAGES, C_HELD_ACROSS_DROP, C_INTACT_CHECKS, C_SEQS, C_TEARDOWN_HEAP, C_TEARDOWN_LSAN,
        C_DEC_HIST, C_RAW_HIST, C_NET_RECYCLED, C_QUIRK_HI_STALE, C_QUIRK_CLOCK23, C_FOREACH_STUCK,
-       C_FOREACH_UNSTOPPED, C_EVICT_REUSE, C_HI_SHRUNK, N_C };
+       C_FOREACH_UNSTOPPED, C_EVICT_REUSE, C_HI_SHRUNK, C_EVICT_NEED_CHECKS, N_C };
 static const char *const cname[N_C] = { "puts", "puts_replacing", "puts_replacing_held_page", "get_hits", "get_misses",
 	"get_wildcard", "is_cached_queries", "hi_subno_queries", "page_refs", "page_unrefs", "unrefs_of_zombie_pages",
 	"foreach_calls", "foreach_visits", "page_type_updates", "channel_switches", "network_adds", "network_drops",
 	"evictions_observed", "ops_under_memory_pressure", "structural_audits", "pages_walked_in_audits",
 	"pages_held_across_network_drop", "content_checks", "histories", "teardown_heap_checks", "teardown_leak_checks",
 	"decoder_mode_histories", "raw_cache_histories", "network_structs_recycled", "quirk_hi_subno_stale",
-	"quirk_clock_23xx", "foreach_stuck", "foreach_not_stopped", "evictions_by_reuse", "hi_subno_after_removal" };
+	"quirk_clock_23xx", "foreach_stuck", "foreach_not_stopped", "evictions_by_reuse", "hi_subno_after_removal", "eviction_necessity_checks" };
 static long cnt[N_C];
 
 static void flush_counts(void)
@@ -464,8 +464,15 @@ static int ring_ok(const struct node *l, const char *what, int bound)
 	return 1;
 }
 
+/* set by OP_PUT for the audit that follows the put: bytes the new page needed (it is referenced, so not in memory_used yet) */
+static unsigned long audit_put_need;
+static int reuse_evicted;             /* evictions the put found by itself (memory of the evicted page reused) */
+static unsigned long reuse_max;
+
 static int audit(int evict_ok, int opk)
 {
+	unsigned long gone_max = 0;       /* largest page that disappeared in this operation */
+	int gone_evicted = 0;             /* pages of held networks that disappeared (= evicted for memory) */
 	cache_network *cn;
 	cache_page *cp;
 	const struct node *n;
@@ -636,7 +643,8 @@ static int audit(int evict_ok, int opk)
 		if (e->state == ST_STORED) {
 			if (j < 0 || (sp[j].f & 8)) {
 				if (e->refs == 0 && (loose || (evict_ok && e->born_op != op_no))) {
-					if (!loose) cnt[C_EVICT]++;
+					if (!loose) { cnt[C_EVICT]++; gone_evicted++; }
+					if (e->size > gone_max) gone_max = e->size;
 					ent_gone(e);              /* swaps another entry into position i */
 					continue;
 				}
@@ -677,6 +685,19 @@ static int audit(int evict_ok, int opk)
 			     sp[i].cp->pgno, sp[i].cp->subno, (sp[i].f & 8) ? "zombie" : "on hash chain", sp[i].cp->ref_count);
 			return 0;
 		}
+	/* Eviction only as far as the limit requires: pages are deleted one by one until the operation fits, so before
+	 * the last deletion it did not fit - with the largest page that went put back (a bound for the last one), the
+	 * limit must be exceeded.  (Pages of dropped networks may go for other reasons; they only enter the bound.) */
+	if (gone_evicted + reuse_evicted > 0) {
+		if (reuse_max > gone_max) gone_max = reuse_max;
+		cnt[C_EVICT_NEED_CHECKS]++;
+		if (ca->memory_used + audit_put_need + gone_max <= ca->memory_limit) {
+			FAIL(1, "model:C10:evicted-without-need", "%d page(s) were evicted (largest %lu bytes) although memory_used=%lu + %lu needed by the operation + %lu <= memory_limit=%lu: the last eviction was not required",
+			     gone_evicted + reuse_evicted, gone_max, ca->memory_used, audit_put_need, gone_max, ca->memory_limit);
+			return 0;
+		}
+	}
+	reuse_evicted = 0; reuse_max = 0;
 	note_state(n_hash, n_refd, n_zombie, n_lnet, z_nets, pressure_seen, opk);
 	return 1;
 }
@@ -1013,7 +1034,8 @@ static int apply(const struct op *o)
 					     x->pgno, x->subno, x->vid, szdef[x->cls].name, o->pgno, o->subno);
 					return 0;
 				}
-				if (mnets[x->net].handles != 0) cnt[C_EVICT]++;
+				if (mnets[x->net].handles != 0) { cnt[C_EVICT]++; reuse_evicted++; }
+				if (x->size > reuse_max) reuse_max = x->size;
 				cnt[C_EVICT_REUSE]++;
 				ent_gone(x);
 				break;           /* at most one entry per address */
@@ -1040,7 +1062,12 @@ static int apply(const struct op *o)
 		}
 		if (!check_intact(e, got, "put")) return 0;
 		if (got->ref_count != 1) { FAIL(1, "model:C10:audit:page-ref_count", "put returned page %x.%x with ref_count=%u", got->pgno, got->subno, got->ref_count); return 0; }
-		if (!audit(evict_ok, o->kind)) return 0;    /* the reference map now knows what this put evicted */
+		audit_put_need = e->size;
+		{
+			int ok = audit(evict_ok, o->kind);      /* the reference map now knows what this put evicted */
+			audit_put_need = 0;
+			if (!ok) return 0;
+		}
 		{
 			/* named quirk Q-hi-subno-stale: a statistic that starts afresh with the first subpage of a page
 			 * (replaced pages still held count) and otherwise only grows */
@@ -1231,11 +1258,11 @@ static int lsan_tick;
 
 /* caches abandoned after a divergence stay reachable, so that the leak monitors
  * of later histories are not confused by them */
-static void *abandoned[512];
+static void *abandoned[1 << 16];
 static int n_abandoned;
 static void abandon(void)
 {
-	if (n_abandoned < 512) abandoned[n_abandoned++] = dec ? (void *)dec : (void *)ca;
+	if (n_abandoned < (int)(sizeof abandoned / sizeof abandoned[0])) abandoned[n_abandoned++] = dec ? (void *)dec : (void *)ca;
 	ca = NULL; dec = NULL;
 	heap_base = -1;
 }
@@ -1243,6 +1270,7 @@ static void abandon(void)
 static int begin_history(unsigned long limit, int use_decoder)
 {
 	int i;
+	reuse_evicted = 0; reuse_max = 0; audit_put_need = 0;
 	n_ent = 0; n_live = 0; n_held = 0; mclock = 0; op_no = 0; seq_failed = 0; pressure_seen = 0; held_across_put = 0;
 	for (i = 0; i < MAXNET; i++) mnets[i].used = 0;
 	for (i = 0; i < NSLOT; i++) slot_net[i] = -1;
